@@ -389,8 +389,9 @@ def gen_alphabet(rng, kind=None, n=None):
     return rng.sample(pool, min(n, len(pool)))
 
 
-PATTERNS = ['const', 'vec', 'time', 'vol', 'slice', 'slice_time', 'irregular', 'none_heavy', 'const_none_some', 'merge_axis',
-            'first_two_equal']
+BASE_PATTERNS = ['const', 'vec', 'time', 'vol', 'slice', 'slice_time', 'irregular', 'none_heavy', 'const_none_some',
+                 'late_change', 'late_change']
+PATTERNS = BASE_PATTERNS + ['merge_axis', 'first_two_equal']
 
 
 def gen_fn(rng, d, pattern=None, alphabet=None, axis=None):
@@ -426,6 +427,14 @@ def gen_fn(rng, d, pattern=None, alphabet=None, axis=None):
         f = {p: c for p in grid(d)}
         for p in rng.sample(grid(d), max(1, len(f) // 4)):
             f[p] = None
+    elif pattern == 'late_change':
+        # equal over the first periods, different only at the far end of one axis (kills "first two periods" tests)
+        base = gen_fn(rng, d, rng.choice(['const', 'slice', 'time', 'vec']), alphabet=al)
+        f = dict(base)
+        ax = rng.randrange(3)
+        last = [p for p in grid(d) if p[ax] == d[ax] - 1]
+        for p in (last if rng.random() < 0.5 else rng.sample(last, 1)):
+            f[p] = pick() if rng.random() < 0.7 else None
     elif pattern in ('merge_axis', 'first_two_equal') and axis is not None:
         n = d[axis]
         tab = [pick() for _ in range(n)]
@@ -480,7 +489,7 @@ def gen_ext(rng, tier='quick', shape=None, sdim='any', ndim=None, nkeys=None, wi
     nkeys = nkeys if nkeys is not None else rng.randint(1, 5)
     ents = {}
     for k in rng.sample(KEYNAMES, nkeys):
-        f = gen_fn(rng, d, rng.choice(patterns or PATTERNS[:9]))
+        f = gen_fn(rng, d, rng.choice(patterns or BASE_PATTERNS))
         e = encode(rng, shape, sdim, f, widen)
         if e is not None:
             ents[k] = e
@@ -538,11 +547,11 @@ def gen_merge_case(rng, tier='quick', dim=None, ndim_in=None):
         if ax is None:
             # non-slice spatial merge: the same function everywhere, or different in some input
             al = gen_alphabet(rng)      # one alphabet per key: Python == must coincide with structural equality
-            base = gen_fn(rng, d_in, rng.choice(PATTERNS[:9]), alphabet=al)
+            base = gen_fn(rng, d_in, rng.choice(BASE_PATTERNS), alphabet=al)
             fs = [copy.deepcopy(base) for _ in range(n)]
             if rng.random() < 0.4:
                 j = rng.randrange(n)
-                fs[j] = gen_fn(rng, d_in, rng.choice(PATTERNS[:9]), alphabet=al)
+                fs[j] = gen_fn(rng, d_in, rng.choice(BASE_PATTERNS), alphabet=al)
         else:
             f = gen_fn(rng, d_out, rng.choice(PATTERNS), axis=ax)
             fs = [restrict(f, d_out, ax, i, d_in) for i in range(n)]
